@@ -31,13 +31,14 @@ use okane_core::syntax::{self, expr, plain};
 
 use crate::fw::{CheckDef, Ctx, Outcome};
 use crate::q::Q;
+use chrono::{Datelike, NaiveDate};
 use crate::oka;
 
 pub const DEF: CheckDef = CheckDef {
     id: "C15",
     run,
     technique: "bounded-exhaustive enumeration of statement records (field alphabets, all records with <= d non-plain fields) for the CSV, Camt053 and Viseca importers; differential oracle: importer-built syntax tree versus okane's own parser applied to the text printed by the real ImportCmd::run; violating cases are reduced to their smallest violating sub-set of non-plain fields, which names the signature",
-    rule: "case = (shape, precision, record). 15 shapes: csv-basic (index columns, liability, code+payee split by a rewrite rule, note, commodity column, balance), csv-credit-debit (label columns, tab delimiter, a 50-column account name so that the amount column overflows), csv-multi (rate, secondary amount/commodity, charge, conversion mode), csv-template (payee = '{category} - {note}', new_to_old), camt-<source> for the 7 text elements a rewrite rule can copy into the payee (creditor, debtor, ultimate creditor/debtor name, remittance info, additional transaction/entry info) each with AcctSvcrRef as code and booking date != value date, camt-entry-only (no TxDtls), camt-numeric (amounts, currency, TxAmt+CcyXchg, charges, opening/closing balance), viseca-basic, viseca-fx. Text alphabet (21): plain, semicolon, lparen, rparen, star, bang, digit-date, double-space, tab, leading-blank, trailing-blank, newline, newline-indent (an indented posting line), newline-date (a dated header line), cr, word-tag, key-value, cjk, empty, equals-at, long. Numeric alphabet: plain, 1,234.50, -0.5, CHF 12.00, $1.46, .02, 0, 12.345, and absent/present for optional columns (Viseca: plain, 1'234.50, .02, 0, 5, 1.2.3, 12.345). Commodity alphabet: plain, empty, $, 'US D', BRK.B, 'A;B'. CSV amount/credit/debit/balance cells of csv-basic and csv-credit-debit additionally take the sign placements -$12.50, $-12.50, $-1,234.50, USD -20, -USD 20, -20 USD and are compared with an independent exact reading of the cell (sign rule of the shape applied). The configured operator of the charge-printing shapes (csv-multi, csv-template, camt-entry-only, camt-numeric, viseca-fx) takes plain, trailing newline, blank-padded, inner double blank, ';', inner newline. Every statement carries the tested record followed by one plain anchor record. Precision of CHF/USD/EUR/VYM in {none,2,4}. ALL records with <= 2 (quick) / <= 3 (thorough) non-plain fields. The four CSV shapes also carry a row choice: a date-less row (all cells empty but the payee) before / between / after the two records, which must not change the number of transactions. Anchor independence: the transaction (tree and printed text) of the plain anchor record must be identical to the one of the statement whose tested record is all plain (same configuration and statement-level fields); every record with one non-plain field less is also run with the file order of the two records swapped. Text fields also take Unicode white space at either end (U+3000 before / after, U+00A0 after, a note line made of U+00A0); the operator also U+3000/U+00A0 padding. Multi-statement family: Camt053 documents with 0..=3 Stmt elements and 0..=4 (thorough 5) plain entries distributed over the statements in every way x with/without opening balances x precision {none,2}: one transaction per entry (plus one per non-empty statement with an opening balance) in document order (record-count, record-sequence) and the usual round trip; documents okane rejects (no Stmt, a Stmt without Ntry) are DON'T-CARE. Plus the layout-boundary family: for one CSV, one Camt053 and one Viseca shape the configured account and the rewrite (counter) account (cleared and pending) take every display width 1..=64 (ASCII; CSV also names with wide CJK characters; thorough: full 64x64 product for CSV) x 4-5 amount spellings of different printed widths and both signs x precision {none,2,4} x with/without running balance. states = statements imported (incl. minimisation re-runs), transitions = transactions compared field by field",
+    rule: "case = (shape, precision, record). 15 shapes: csv-basic (index columns, liability, code+payee split by a rewrite rule, note, commodity column, balance), csv-credit-debit (label columns, tab delimiter, a 50-column account name so that the amount column overflows), csv-multi (rate, secondary amount/commodity, charge, conversion mode), csv-template (payee = '{category} - {note}', new_to_old), camt-<source> for the 7 text elements a rewrite rule can copy into the payee (creditor, debtor, ultimate creditor/debtor name, remittance info, additional transaction/entry info) each with AcctSvcrRef as code and booking date != value date, camt-entry-only (no TxDtls), camt-numeric (amounts, currency, TxAmt+CcyXchg, charges, opening/closing balance), viseca-basic, viseca-fx. Text alphabet (21): plain, semicolon, lparen, rparen, star, bang, digit-date, double-space, tab, leading-blank, trailing-blank, newline, newline-indent (an indented posting line), newline-date (a dated header line), cr, word-tag, key-value, cjk, empty, equals-at, long. Numeric alphabet: plain, 1,234.50, -0.5, CHF 12.00, $1.46, .02, 0, 12.345, and absent/present for optional columns (Viseca: plain, 1'234.50, .02, 0, 5, 1.2.3, 12.345). Commodity alphabet: plain, empty, $, 'US D', BRK.B, 'A;B'. CSV amount/credit/debit/balance cells of csv-basic and csv-credit-debit additionally take the sign placements -$12.50, $-12.50, $-1,234.50, USD -20, -USD 20, -20 USD and are compared with an independent exact reading of the cell (sign rule of the shape applied). The configured operator of the charge-printing shapes (csv-multi, csv-template, camt-entry-only, camt-numeric, viseca-fx) takes plain, trailing newline, blank-padded, inner double blank, ';', inner newline. Every statement carries the tested record followed by one plain anchor record. Precision of CHF/USD/EUR/VYM in {none,2,4}. ALL records with <= 2 (quick) / <= 3 (thorough) non-plain fields. The four CSV shapes also carry a row choice: a date-less row (all cells empty but the payee) before / between / after the two records, which must not change the number of transactions. Anchor independence: the transaction (tree and printed text) of the plain anchor record must be identical to the one of the statement whose tested record is all plain (same configuration and statement-level fields); every record with one non-plain field less is also run with the file order of the two records swapped. Text fields also take Unicode white space at either end (U+3000 before / after, U+00A0 after, a note line made of U+00A0); the operator also U+3000/U+00A0 padding. Multi-statement family: Camt053 documents with 0..=3 Stmt elements and 0..=4 (thorough 5) plain entries distributed over the statements in every way x with/without opening balances x precision {none,2}: one transaction per entry (plus one per non-empty statement with an opening balance) in document order (record-count, record-sequence) and the usual round trip; documents okane rejects (no Stmt, a Stmt without Ntry) are DON'T-CARE. Amount-bearing cells also take the zero spellings 0.00, -0.00, -0 (Viseca 0.00). Secondary-amount reference: in csv-multi (extract, no charge), csv-template (no fees), camt-numeric (unsigned Amt, TxAmt, no charges) and viseca-fx the posting in the secondary commodity must be +|secondary| when the statement account is debited (minus sign in the amount cell, also on a zero / DBIT / purchase line) and -|secondary| otherwise. Date family: record dates on every day 25 Dec..7 Jan over 8 year boundaries (2018/19..2025/26, every week-day position of 1 January), 28/29 Feb, 1 Mar of 2020/2023/2024, CSV, and Camt053 / Viseca with an effective date 0/1/3/7 days later: built dates = statement dates (statement-date-differs) and the usual round trip. Plus the layout-boundary family: for one CSV, one Camt053 and one Viseca shape the configured account and the rewrite (counter) account (cleared and pending) take every display width 1..=64 (ASCII; CSV also names with wide CJK characters; thorough: full 64x64 product for CSV) x 4-5 amount spellings of different printed widths and both signs x precision {none,2,4} x with/without running balance. states = statements imported (incl. minimisation re-runs), transitions = transactions compared field by field",
     assumptions: &[
         "the tree is built in the harness by the same public calls as ImportCmd::run (load_from_yaml, ConfigSet::select, import::import, Txn::to_double_entry) on the same scratch files, reading the file as UTF-8 bytes without encoding_rs_io (identical for the BOM-less UTF-8 statements generated here)",
         "text that the importer trims / splits / rejects before building the tree is not judged (tree vs re-read text only); records the importer rejects are DON'T-CARE",
@@ -126,6 +127,11 @@ const SIGN_KINDS: &[(&str, &str)] = &[
     ("minus-suffix-code", "-20 USD"),
 ];
 
+/// spellings of zero (with and without a minus sign) for the amount-bearing cells
+const ZERO_KINDS: &[(&str, &str)] = &[("zero-scale2", "0.00"), ("negative-zero", "-0.00"), ("negative-zero-int", "-0")];
+/// Viseca numbers carry no sign of their own (the line ends with ` -` for a refund)
+const VZERO_KINDS: &[(&str, &str)] = &[("zero-scale2", "0.00")];
+
 /// spellings of the configured `operator` (printed as the `Payee` tag of charge postings)
 const OPERATOR_KINDS: &[(&str, &str)] = &[
     ("trailing-newline", "Okane Bank (fee)\n"),
@@ -193,6 +199,15 @@ fn signed(mut f: Field) -> Field {
     f.alts.extend(kinds(SIGN_KINDS));
     f
 }
+/// appends the zero spellings to an amount-bearing field
+fn zeros(mut f: Field) -> Field {
+    f.alts.extend(kinds(ZERO_KINDS));
+    f
+}
+fn vzeros(mut f: Field) -> Field {
+    f.alts.extend(kinds(VZERO_KINDS));
+    f
+}
 fn commodity(name: &'static str, role: &'static str, plain: &str) -> Field {
     let mut alts = vec![alt("plain", plain)];
     alts.extend(kinds(COMMODITY_KINDS));
@@ -246,8 +261,8 @@ fn shapes() -> Vec<Shape> {
             opt_text("code", "code", "785403"),
             text("note", "comment", "memo one"),
             commodity("commodity", "commodity", "CHF"),
-            signed(num("amount", "amount", "5", NUM_KINDS)),
-            signed(opt_num("balance", "balance", "100", NUM_KINDS)),
+            zeros(signed(num("amount", "amount", "5", NUM_KINDS))),
+            zeros(signed(opt_num("balance", "balance", "100", NUM_KINDS))),
             choice("dateless-row", "row", &[("none", ""), ("dateless-before", "before"), ("dateless-between", "between"), ("dateless-after", "after")]),
         ],
     });
@@ -255,9 +270,9 @@ fn shapes() -> Vec<Shape> {
         name: "csv-credit-debit".into(),
         kind: Kind::CsvCreditDebit,
         fields: vec![
-            signed(opt_num("credit", "amount", "5", NUM_KINDS)),
-            signed(num_or_absent("debit", "amount", "5", NUM_KINDS)),
-            signed(num_or_absent("balance", "balance", "100", NUM_KINDS)),
+            zeros(signed(opt_num("credit", "amount", "5", NUM_KINDS))),
+            zeros(signed(num_or_absent("debit", "amount", "5", NUM_KINDS))),
+            zeros(signed(num_or_absent("balance", "balance", "100", NUM_KINDS))),
             choice("dateless-row", "row", &[("none", ""), ("dateless-before", "before"), ("dateless-between", "between"), ("dateless-after", "after")]),
         ],
     });
@@ -267,10 +282,10 @@ fn shapes() -> Vec<Shape> {
         fields: vec![
             commodity("commodity", "commodity", "USD"),
             commodity("secondary_commodity", "commodity", "JPY"),
-            num("amount", "amount", "5", NUM_KINDS),
+            zeros(num("amount", "amount", "5", NUM_KINDS)),
             num_or_absent("rate", "rate", "2", NUM_KINDS),
-            num_or_absent("secondary_amount", "amount", "10", NUM_KINDS),
-            opt_num("charge", "charge", "1.5", NUM_KINDS),
+            zeros(num_or_absent("secondary_amount", "amount", "10", NUM_KINDS)),
+            zeros(opt_num("charge", "charge", "1.5", NUM_KINDS)),
             choice(
                 "conversion",
                 "config",
@@ -287,10 +302,10 @@ fn shapes() -> Vec<Shape> {
             text("category", "payee", "Buy"),
             text("description", "payee", "VANGUARD ETF"),
             commodity("symbol", "commodity", "VYM"),
-            num_or_absent("quantity", "amount", "2", NUM_KINDS),
+            zeros(num_or_absent("quantity", "amount", "2", NUM_KINDS)),
             num_or_absent("price", "rate", "60.5", NUM_KINDS),
-            opt_num("fees", "charge", "0.5", NUM_KINDS),
-            num("amount", "amount", "-121.5", NUM_KINDS),
+            zeros(opt_num("fees", "charge", "0.5", NUM_KINDS)),
+            zeros(num("amount", "amount", "-121.5", NUM_KINDS)),
             operator("Broker Schrank"),
             choice("dateless-row", "row", &[("none", ""), ("dateless-before", "before"), ("dateless-between", "between"), ("dateless-after", "after")]),
         ],
@@ -303,18 +318,18 @@ fn shapes() -> Vec<Shape> {
     }
     // AddtlNtryInf: with TxDtls (code present) and entry-only (no TxDtls, hence no code)
     v.push(Shape { name: "camt-AddtlNtryInf".into(), kind: Kind::CamtText(6), fields: vec![text_or_absent("AcctSvcrRef", "code", "20211031/1/1"), text("source", "payee", "Yamada Shop")] });
-    v.push(Shape { name: "camt-entry-only".into(), kind: Kind::CamtEntryOnly, fields: vec![text("source", "payee", "Yamada Shop"), num("amount", "amount", "5", NUM_KINDS), opt_num("charge", "charge", "1.5", NUM_KINDS), operator("Okane Bank (fee)")] });
+    v.push(Shape { name: "camt-entry-only".into(), kind: Kind::CamtEntryOnly, fields: vec![text("source", "payee", "Yamada Shop"), zeros(num("amount", "amount", "5", NUM_KINDS)), zeros(opt_num("charge", "charge", "1.5", NUM_KINDS)), operator("Okane Bank (fee)")] });
     v.push(Shape {
         name: "camt-numeric".into(),
         kind: Kind::CamtNum,
         fields: vec![
-            num("amount", "amount", "5", NUM_KINDS),
+            zeros(num("amount", "amount", "5", NUM_KINDS)),
             commodity("Ccy", "commodity", "CHF"),
             choice("CdtDbtInd", "amount", &[("debit", "DBIT"), ("credit", "CRDT")]),
-            opt_num("TxAmt", "amount", "4.5", NUM_KINDS),
+            zeros(opt_num("TxAmt", "amount", "4.5", NUM_KINDS)),
             num_or_absent("XchgRate", "rate", "1.1", NUM_KINDS),
-            opt_num("charge-included", "charge", "1.5", NUM_KINDS),
-            opt_num("charge-not-included", "charge", "1.5", NUM_KINDS),
+            zeros(opt_num("charge-included", "charge", "1.5", NUM_KINDS)),
+            zeros(opt_num("charge-not-included", "charge", "1.5", NUM_KINDS)),
             num_or_absent("opening-balance", "balance", "100", NUM_KINDS),
             num_or_absent("closing-balance", "balance", "74.5", NUM_KINDS),
             operator("Okane Bank (fee)"),
@@ -323,7 +338,7 @@ fn shapes() -> Vec<Shape> {
     v.push(Shape {
         name: "viseca-basic".into(),
         kind: Kind::VisecaBasic,
-        fields: vec![text("payee", "payee", "certain, phone company CH"), text_or_absent("category", "none", "Telecommunication services"), num("amount", "amount", "52.10", VNUM_KINDS), choice("sign", "amount", &[("charge", ""), ("refund", " -")])],
+        fields: vec![text("payee", "payee", "certain, phone company CH"), text_or_absent("category", "none", "Telecommunication services"), vzeros(num("amount", "amount", "52.10", VNUM_KINDS)), choice("sign", "amount", &[("charge", ""), ("refund", " -")])],
     });
     v.push(Shape {
         name: "viseca-fx".into(),
@@ -331,12 +346,12 @@ fn shapes() -> Vec<Shape> {
         fields: vec![
             text("payee", "payee", "Europe Gas AT"),
             choice("currency", "commodity", &[("foreign", "EUR"), ("same-as-primary", "CHF")]),
-            num("spent", "amount", "46.88", VNUM_KINDS),
-            num("amount", "amount", "52.10", VNUM_KINDS),
+            vzeros(num("spent", "amount", "46.88", VNUM_KINDS)),
+            vzeros(num("amount", "amount", "52.10", VNUM_KINDS)),
             num_or_absent("rate", "rate", "1.092432", VNUM_KINDS),
             num("equivalent", "none", "51.20", VNUM_KINDS),
             choice("fee-line", "charge", &[("processing-fee", "Processing fee"), ("credit-of-fee", "Credit of processing fee"), ("none", "-")]),
-            num("fee", "charge", "0.90", VNUM_KINDS),
+            vzeros(num("fee", "charge", "0.90", VNUM_KINDS)),
             choice("sign", "amount", &[("charge", ""), ("refund", " -")]),
             operator("Okane Card (fee)"),
         ],
@@ -368,6 +383,8 @@ struct Rendered {
     anchor_txn: Option<usize>,
     /// payees of the transactions in import order, when the family knows them (multi-statement documents)
     payees: Option<Vec<String>>,
+    /// (transaction index, date, effective date) the statement dictates (date family)
+    dates: Option<(usize, NaiveDate, Option<NaiveDate>)>,
 }
 
 /// One number of the built tree that is dictated by a statement cell.
@@ -379,6 +396,8 @@ struct Expect {
     source: bool,
     /// the balance assertion instead of the amount
     balance: bool,
+    /// when set: the posting whose amount has this commodity (instead of source / counter)
+    commodity: Option<String>,
     value: Q,
     /// how the reference got there, for the report
     why: String,
@@ -407,6 +426,13 @@ fn cell_value(cell: &str) -> Option<Q> {
     }
     let q = Q::parse(body);
     Some(if neg { q.neg() } else { q })
+}
+
+/// The secondary / transferred amount of a record is booked on the counter side: received (+) when the statement
+/// account is debited, given (-) when it is credited; its own sign in the statement does not matter.
+fn secondary_expect(txn: usize, commodity: &str, secondary_cell: &str, debit: bool, why: &str) -> Option<Expect> {
+    let q = cell_value(&secondary_cell.replace('\'', ""))?.abs();
+    Some(Expect { txn, source: false, balance: false, commodity: Some(commodity.to_string()), value: if debit { q } else { q.neg() }, why: format!("secondary amount cell {:?}, {}", secondary_cell, why) })
 }
 
 fn yaml_dq(s: &str) -> String {
@@ -485,13 +511,13 @@ fn render(shape: &Shape, prec: Option<u8>, v: &Vals, swap: bool) -> Rendered {
             // liability: the statement-account posting carries -cell, the counter posting +cell; balance as written
             let mut expect = vec![];
             if let Some(a) = cell_value(g(4)) {
-                expect.push(Expect { txn: t_idx, source: true, balance: false, value: a.neg(), why: format!("amount cell {:?} of a liability account is booked negated", g(4)) });
-                expect.push(Expect { txn: t_idx, source: false, balance: false, value: a, why: format!("counter posting of the amount cell {:?}", g(4)) });
+                expect.push(Expect { txn: t_idx, source: true, balance: false, commodity: None, value: a.neg(), why: format!("amount cell {:?} of a liability account is booked negated", g(4)) });
+                expect.push(Expect { txn: t_idx, source: false, balance: false, commodity: None, value: a, why: format!("counter posting of the amount cell {:?}", g(4)) });
             }
             if let Some(b) = v[5].and_then(cell_value) {
-                expect.push(Expect { txn: t_idx, source: true, balance: true, value: b, why: format!("balance cell {:?}", g(5)) });
+                expect.push(Expect { txn: t_idx, source: true, balance: true, commodity: None, value: b, why: format!("balance cell {:?}", g(5)) });
             }
-            Rendered { config, statement: st, ext: "csv", records: 2, expect, anchor_txn: Some(a_idx), payees: None }
+            Rendered { config, statement: st, ext: "csv", records: 2, expect, anchor_txn: Some(a_idx), payees: None, dates: None }
         }
         Kind::CsvCreditDebit => {
             let config = format!(
@@ -514,13 +540,13 @@ fn render(shape: &Shape, prec: Option<u8>, v: &Vals, swap: bool) -> Rendered {
                 _ => None,
             };
             if let Some((a, why)) = signed_value {
-                expect.push(Expect { txn: t_idx, source: true, balance: false, value: a, why: why.clone() });
-                expect.push(Expect { txn: t_idx, source: false, balance: false, value: a.neg(), why: format!("counter posting of the {}", why) });
+                expect.push(Expect { txn: t_idx, source: true, balance: false, commodity: None, value: a, why: why.clone() });
+                expect.push(Expect { txn: t_idx, source: false, balance: false, commodity: None, value: a.neg(), why: format!("counter posting of the {}", why) });
             }
             if let Some(b) = v[2].and_then(cell_value) {
-                expect.push(Expect { txn: t_idx, source: true, balance: true, value: b, why: format!("balance cell {:?}", g(2)) });
+                expect.push(Expect { txn: t_idx, source: true, balance: true, commodity: None, value: b, why: format!("balance cell {:?}", g(2)) });
             }
-            Rendered { config, statement: st, ext: "csv", records: 2, expect, anchor_txn: Some(a_idx), payees: None }
+            Rendered { config, statement: st, ext: "csv", records: 2, expect, anchor_txn: Some(a_idx), payees: None, dates: None }
         }
         Kind::CsvMulti => {
             let (amode, rmode) = g(6).split_once(' ').expect("conversion mode");
@@ -539,7 +565,17 @@ fn render(shape: &Shape, prec: Option<u8>, v: &Vals, swap: bool) -> Rendered {
                 g(8),
                 &csv_row(&["", "Sub-total", "", "", "", "", "", ""], ','),
             );
-            Rendered { config, statement: st, ext: "csv", records: 2, expect: vec![], anchor_txn: Some(a_idx), payees: None }
+            // extracted secondary amount, no charge: the JPY posting is +|secondary| for a debit (minus sign in the
+            // amount cell, also on a zero) and -|secondary| otherwise
+            let mut expect = vec![];
+            let rate_ok = v[3].and_then(cell_value).map(|r| !r.is_zero()).unwrap_or(false);
+            if g(0) == "USD" && g(1) == "JPY" && amode == "extract" && v[5].is_none() && rate_ok && cell_value(g(2)).is_some() {
+                if let Some(sec) = v[4] {
+                    let debit = g(2).contains('-');
+                    expect.extend(secondary_expect(t_idx, "JPY", sec, debit, if debit { "amount cell with a minus sign: debit" } else { "amount cell without a minus sign: credit" }));
+                }
+            }
+            Rendered { config, statement: st, ext: "csv", records: 2, expect, anchor_txn: Some(a_idx), payees: None, dates: None }
         }
         Kind::CsvTemplate => {
             let config = format!(
@@ -557,7 +593,15 @@ fn render(shape: &Shape, prec: Option<u8>, v: &Vals, swap: bool) -> Rendered {
                 g(8),
                 &csv_row(&["", "", "", "Sub-total", "", "", "", ""], ','),
             );
-            Rendered { config, statement: st, ext: "csv", records: 2, expect: vec![], anchor_txn: Some(a_idx), payees: None }
+            let mut expect = vec![];
+            let rate_ok = v[4].and_then(cell_value).map(|r| !r.is_zero()).unwrap_or(false);
+            if g(2) == "VYM" && v[5].is_none() && rate_ok && cell_value(g(6)).is_some() {
+                if let Some(sec) = v[3] {
+                    let debit = g(6).contains('-');
+                    expect.extend(secondary_expect(t_idx, "VYM", sec, debit, if debit { "amount cell with a minus sign: debit" } else { "amount cell without a minus sign: credit" }));
+                }
+            }
+            Rendered { config, statement: st, ext: "csv", records: 2, expect, anchor_txn: Some(a_idx), payees: None, dates: None }
         }
         Kind::CamtText(k) => {
             let mut e = CamtEntry::plain();
@@ -572,7 +616,7 @@ fn render(shape: &Shape, prec: Option<u8>, v: &Vals, swap: bool) -> Rendered {
                 6 => e.addtl_ntry = g(1),
                 _ => unreachable!(),
             }
-            Rendered { config: camt_config(prec, CAMT_SOURCES[k].1, "Okane Bank (fee)"), statement: camt_doc(&ordered(e, CamtEntry::anchor(k), swap), Some("100"), Some("74.5")), ext: "xml", records: 3, expect: vec![], anchor_txn: Some(1 + a_idx), payees: None }
+            Rendered { config: camt_config(prec, CAMT_SOURCES[k].1, "Okane Bank (fee)"), statement: camt_doc(&ordered(e, CamtEntry::anchor(k), swap), Some("100"), Some("74.5")), ext: "xml", records: 3, expect: vec![], anchor_txn: Some(1 + a_idx), payees: None, dates: None }
         }
         Kind::CamtEntryOnly => {
             let mut e = CamtEntry::plain();
@@ -580,7 +624,7 @@ fn render(shape: &Shape, prec: Option<u8>, v: &Vals, swap: bool) -> Rendered {
             e.addtl_ntry = g(0);
             e.amt = g(1);
             e.entry_charge = v[2].map(|a| (a, true));
-            Rendered { config: camt_config(prec, "additional_entry_info", g(3)), statement: camt_doc(&ordered(e, CamtEntry::anchor(6), swap), Some("100"), Some("74.5")), ext: "xml", records: 3, expect: vec![], anchor_txn: Some(1 + a_idx), payees: None }
+            Rendered { config: camt_config(prec, "additional_entry_info", g(3)), statement: camt_doc(&ordered(e, CamtEntry::anchor(6), swap), Some("100"), Some("74.5")), ext: "xml", records: 3, expect: vec![], anchor_txn: Some(1 + a_idx), payees: None, dates: None }
         }
         Kind::CamtNum => {
             let mut e = CamtEntry::plain();
@@ -591,7 +635,17 @@ fn render(shape: &Shape, prec: Option<u8>, v: &Vals, swap: bool) -> Rendered {
             e.tx_charge = v[5].map(|a| (a, true));
             e.entry_charge = v[6].map(|a| (a, false));
             let records = 2 + if v[7].is_some() { 1 } else { 0 };
-            Rendered { config: camt_config(prec, "creditor_name", g(9)), statement: camt_doc(&ordered(e, CamtEntry::anchor(0), swap), v[7], v[8]), ext: "xml", records, expect: vec![], anchor_txn: Some(records - 2 + a_idx), payees: None }
+            // TxAmt in EUR, no charges, unsigned entry amount (ISO 20022 amounts carry no sign; what a minus sign in Amt
+            // means is not judged): +|TxAmt| when the entry debits the account (DBIT), -|TxAmt| for CRDT
+            let mut expect = vec![];
+            let plain_decimal = |c: &str| c.chars().all(|ch| ch.is_ascii_digit() || ch == '.' || ch == '-');
+            if g(1) == "CHF" && v[5].is_none() && v[6].is_none() && plain_decimal(g(0)) && !g(0).contains('-') && cell_value(g(0)).is_some() {
+                if let Some(tx) = v[3].filter(|c| plain_decimal(c)) {
+                    let debit = g(2) == "DBIT";
+                    expect.extend(secondary_expect(records - 2 + t_idx, "EUR", tx, debit, if debit { "the entry debits the account" } else { "the entry credits the account" }));
+                }
+            }
+            Rendered { config: camt_config(prec, "creditor_name", g(9)), statement: camt_doc(&ordered(e, CamtEntry::anchor(0), swap), v[7], v[8]), ext: "xml", records, expect, anchor_txn: Some(records - 2 + a_idx), payees: None, dates: None }
         }
         Kind::VisecaBasic => {
             let mut t = format!("04.01.24 05.01.24 {} {}{}\n", g(0), g(2), g(3));
@@ -600,7 +654,7 @@ fn render(shape: &Shape, prec: Option<u8>, v: &Vals, swap: bool) -> Rendered {
                 t.push('\n');
             }
             let st = assemble("", &t, VISECA_ANCHOR, swap, "", "");
-            Rendered { config: viseca_config(prec, "Okane Card (fee)"), statement: st, ext: "txt", records: 2, expect: vec![], anchor_txn: Some(a_idx), payees: None }
+            Rendered { config: viseca_config(prec, "Okane Card (fee)"), statement: st, ext: "txt", records: 2, expect: vec![], anchor_txn: Some(a_idx), payees: None, dates: None }
         }
         Kind::VisecaFx => {
             let mut t = format!("04.01.24 05.01.24 {} {} {} {}{}\nService stations\n", g(0), g(1), g(2), g(3), g(8));
@@ -611,7 +665,13 @@ fn render(shape: &Shape, prec: Option<u8>, v: &Vals, swap: bool) -> Rendered {
                 t.push_str(&format!("{} 1.75% CHF {}\n", g(6), g(7)));
             }
             let st = assemble("", &t, VISECA_ANCHOR, swap, "", "");
-            Rendered { config: viseca_config(prec, g(9)), statement: st, ext: "txt", records: 2, expect: vec![], anchor_txn: Some(a_idx), payees: None }
+            // foreign amount: received (+) for a purchase, given back (-) for a refund line (` -`)
+            let mut expect = vec![];
+            if g(1) == "EUR" {
+                let purchase = g(8).is_empty();
+                expect.extend(secondary_expect(t_idx, "EUR", g(2), purchase, if purchase { "purchase line" } else { "refund line" }));
+            }
+            Rendered { config: viseca_config(prec, g(9)), statement: st, ext: "txt", records: 2, expect, anchor_txn: Some(a_idx), payees: None, dates: None }
         }
     }
 }
@@ -942,6 +1002,12 @@ fn judge_rendered(env: &Env, r: &Rendered, prec: Option<u8>, anchor_reference: O
         return Judgement::Bad { clause: "record-count".into(), detail: show(format!("the statement holds {} records but the importer built {} transactions", r.records, trees.len())) };
     }
 
+    if let Some((i, date, edate)) = &r.dates {
+        let t = &trees[*i];
+        if t.date != *date || t.effective_date != *edate {
+            return Judgement::Bad { clause: "statement-date-differs".into(), detail: show(format!("transaction #{}: the record is dated {} (effective {:?}) but the importer built {} (effective {:?})", i + 1, date, edate, t.date, t.effective_date)) };
+        }
+    }
     if let Some(want) = &r.payees {
         let got: Vec<String> = trees.iter().map(|t| t.payee.to_string()).collect();
         if got != *want {
@@ -952,7 +1018,10 @@ fn judge_rendered(env: &Env, r: &Rendered, prec: Option<u8>, anchor_reference: O
     // ---- numbers dictated by the statement cells (independent reference) ----
     for ex in &r.expect {
         let t = &trees[ex.txn];
-        let posting = t.posts.iter().find(|p| (p.account.as_ref() as &str == entry.account.as_str()) == ex.source);
+        let posting = match &ex.commodity {
+            None => t.posts.iter().find(|p| (p.account.as_ref() as &str == entry.account.as_str()) == ex.source),
+            Some(c) => t.posts.iter().find(|p| matches!(p.amount.as_ref().map(|a| &a.amount), Some(expr::ValueExpr::Amount(a)) if a.commodity == c.as_str())),
+        };
         let got = posting.and_then(|p| if ex.balance { p.balance.as_ref() } else { p.amount.as_ref().map(|a| &a.amount) });
         let got_q = match got {
             Some(expr::ValueExpr::Amount(a)) => Some(Q::from_decimal(a.value.value)),
@@ -966,7 +1035,10 @@ fn judge_rendered(env: &Env, r: &Rendered, prec: Option<u8>, anchor_reference: O
                     "transaction #{}: the {} of the {} posting must be {} ({}), but the importer built {}\n--- tree built by the importer ---\n{:#?}",
                     ex.txn + 1,
                     what,
-                    if ex.source { "statement-account" } else { "counter" },
+                    match &ex.commodity {
+                        Some(c) => format!("{}", c),
+                        None => (if ex.source { "statement-account" } else { "counter" }).to_string(),
+                    },
                     ex.value,
                     ex.why,
                     got_q.map(|q| q.to_string()).unwrap_or_else(|| "nothing".into()),
@@ -1323,7 +1395,7 @@ fn layout_render(c: &LayoutCase) -> Rendered {
             let mut st = csv_row(&["date", "payee", "amount", "balance"], ',');
             st.push_str(&csv_row(&["2024-03-01", "City Power", c.amount, if c.balance { "100" } else { "" }], ','));
             st.push_str(&csv_row(&["2024-03-02", "Migros Grocery", "-20.5", ""], ','));
-            Rendered { config, statement: st, ext: "csv", records: 2, expect: vec![], anchor_txn: None, payees: None }
+            Rendered { config, statement: st, ext: "csv", records: 2, expect: vec![], anchor_txn: None, payees: None, dates: None }
         }
         "xml" => {
             let config = format!(
@@ -1339,7 +1411,7 @@ fn layout_render(c: &LayoutCase) -> Rendered {
             e.debit = c.flip;
             let closing = if c.balance { Some("74.5") } else { None };
             let records = 3;
-            Rendered { config, statement: camt_doc(&[e, CamtEntry::anchor(0)], Some("100"), closing), ext: "xml", records, expect: vec![], anchor_txn: None, payees: None }
+            Rendered { config, statement: camt_doc(&[e, CamtEntry::anchor(0)], Some("100"), closing), ext: "xml", records, expect: vec![], anchor_txn: None, payees: None, dates: None }
         }
         _ => {
             let config = format!(
@@ -1350,7 +1422,7 @@ fn layout_render(c: &LayoutCase) -> Rendered {
                 pending
             );
             let st = format!("04.01.24 05.01.24 City Power {}{}\nUtilities\n10.01.24 11.01.24 Migros Grocery 20.50\nGrocery stores\n", c.amount, if c.flip { " -" } else { "" });
-            Rendered { config, statement: st, ext: "txt", records: 2, expect: vec![], anchor_txn: None, payees: None }
+            Rendered { config, statement: st, ext: "txt", records: 2, expect: vec![], anchor_txn: None, payees: None, dates: None }
         }
     }
 }
@@ -1525,7 +1597,7 @@ fn multi_stmt_render(c: &MultiStmtCase) -> Rendered {
         want.extend(payees[s].iter().cloned());
     }
     let stmts: Vec<(&[CamtEntry], Option<&str>, Option<&str>)> = (0..c.stmts).map(|s| (per_stmt[s].as_slice(), if c.opening { Some("100") } else { None }, Some(closings[s].as_str()))).collect();
-    Rendered { config: camt_config(prec, "creditor_name", "Okane Bank (fee)"), statement: camt_multi_doc(&stmts), ext: "xml", records: want.len(), expect: vec![], anchor_txn: None, payees: Some(want) }
+    Rendered { config: camt_config(prec, "creditor_name", "Okane Bank (fee)"), statement: camt_multi_doc(&stmts), ext: "xml", records: want.len(), expect: vec![], anchor_txn: None, payees: Some(want), dates: None }
 }
 
 fn multi_stmt_describe(c: &MultiStmtCase) -> String {
@@ -1550,6 +1622,104 @@ fn multi_stmt_outcome(env: &Env, c: &MultiStmtCase) -> Outcome {
         Judgement::Rejected(cl) => Outcome::dont_care(format!("multi-statement/{}/{}-statements", cl, c.stmts)),
         Judgement::Ok { class, .. } => Outcome::pass(format!("multi-statement/{}-statements/{}-non-empty/{}", c.stmts, used, if r.records == 0 { "no-transaction".to_string() } else { class })),
         Judgement::Bad { clause, detail } => Outcome::violation(format!("{}/camt-multi-statement", clause), detail),
+    }
+}
+
+
+// ------------------------------------------------------------------------------------------------
+// Date family: record dates around New Year and the end of February.
+//
+// Every day from 25 December to 7 January across 8 year boundaries (2018/19 .. 2025/26: 1 January falls on
+// every day of the week), 28/29 February and 1 March of 2020, 2023, 2024; for Camt053 (value date / booking
+// date) and Viseca (date / second date) combined with an effective date 0, 1, 3 or 7 days later (crossing the
+// year or the month). The built tree must carry the statement's dates and the printed text must read back to it.
+
+#[derive(Clone, Debug)]
+struct DateCase {
+    importer: &'static str,
+    date: NaiveDate,
+    /// effective date = date + offset days (0: none)
+    offset: i64,
+}
+
+fn date_cases() -> Vec<DateCase> {
+    let mut days: Vec<NaiveDate> = vec![];
+    for y in 2018..=2025 {
+        for d in 25..=31 {
+            days.push(NaiveDate::from_ymd_opt(y, 12, d).unwrap());
+        }
+        for d in 1..=7 {
+            days.push(NaiveDate::from_ymd_opt(y + 1, 1, d).unwrap());
+        }
+    }
+    for (y, m, d) in [(2020, 2, 28), (2020, 2, 29), (2020, 3, 1), (2023, 2, 28), (2023, 3, 1), (2024, 2, 28), (2024, 2, 29), (2024, 3, 1)] {
+        days.push(NaiveDate::from_ymd_opt(y, m, d).unwrap());
+    }
+    let mut v = vec![];
+    for d in &days {
+        v.push(DateCase { importer: "csv", date: *d, offset: 0 });
+    }
+    for importer in ["xml", "txt"] {
+        for d in &days {
+            for offset in [0i64, 1, 3, 7] {
+                v.push(DateCase { importer, date: *d, offset });
+            }
+        }
+    }
+    v
+}
+
+fn date_render(c: &DateCase) -> Rendered {
+    let later = c.date + chrono::Duration::days(c.offset);
+    let edate = if c.offset == 0 { None } else { Some(later) };
+    match c.importer {
+        "csv" => {
+            let config = "path: \".csv\"\nencoding: UTF-8\naccount: \"Assets:Okane Bank\"\naccount_type: asset\ncommodity: CHF\nformat:\n  date: \"%Y-%m-%d\"\n  fields:\n    date: 1\n    payee: 2\n    amount: 3\nrewrite:\n  - matcher:\n      payee: Grocery\n    account: Expenses:Grocery\n".to_string();
+            let mut st = csv_row(&["date", "payee", "amount"], ',');
+            st.push_str(&csv_row(&[&c.date.format("%Y-%m-%d").to_string(), "Coffee Shop", "-5"], ','));
+            st.push_str(&csv_row(&["2024-03-02", "Migros Grocery", "-20.5"], ','));
+            Rendered { config, statement: st, ext: "csv", records: 2, expect: vec![], anchor_txn: None, payees: None, dates: Some((0, c.date, None)) }
+        }
+        "xml" => {
+            let (day, booked) = (c.date.format("%Y-%m-%d").to_string(), later.format("%Y-%m-%d").to_string());
+            let mut e = CamtEntry::plain();
+            e.day = &day;
+            e.booked = &booked;
+            Rendered { config: camt_config(None, "creditor_name", "Okane Bank (fee)"), statement: camt_doc(&[e, CamtEntry::anchor(0)], Some("100"), Some("74.5")), ext: "xml", records: 3, expect: vec![], anchor_txn: None, payees: None, dates: Some((1, c.date, edate)) }
+        }
+        _ => {
+            let st = format!("{} {} Coffee Shop 5.00\nRestaurants\n{}", c.date.format("%d.%m.%y"), later.format("%d.%m.%y"), VISECA_ANCHOR);
+            Rendered { config: viseca_config(None, "Okane Card (fee)"), statement: st, ext: "txt", records: 2, expect: vec![], anchor_txn: None, payees: None, dates: Some((0, c.date, edate)) }
+        }
+    }
+}
+
+fn date_describe(c: &DateCase) -> String {
+    let r = date_render(c);
+    format!("date family: importer {} record date {} ({:?}), effective date {} days later\n--- config ---\n{}--- statement (.{}) ---\n{}", c.importer, c.date, c.date.weekday(), c.offset, r.config, r.ext, r.statement)
+}
+
+fn date_outcome(env: &Env, c: &DateCase) -> Outcome {
+    let r = date_render(c);
+    let j = match crate::fw::guarded(|| judge_rendered(env, &r, None, None)) {
+        Ok(j) => j,
+        Err(sig) if sig.contains("harness bug") => panic!("{}", sig),
+        Err(sig) => Judgement::Bad { clause: format!("crash/{}", sig), detail: "panic while importing this statement".into() },
+    };
+    let later = c.date + chrono::Duration::days(c.offset);
+    let kind = if c.date.iso_week().year() != c.date.year() || later.iso_week().year() != later.year() {
+        "iso-week-year-differs"
+    } else if later.year() != c.date.year() {
+        "crosses-year"
+    } else if c.date.month() == 2 && c.date.day() == 29 {
+        "leap-day"
+    } else {
+        "ordinary"
+    };
+    match j {
+        Judgement::Rejected(cl) => Outcome::dont_care(format!("dates/{}", cl)),
+        Judgement::Ok { .. } => Outcome::pass(format!("dates/roundtrip-ok/{}/{}{}", c.importer, kind, if c.offset != 0 { "/edate" } else { "" })),
+        Judgement::Bad { clause, detail } => Outcome::violation(format!("{}/date:{}", clause, kind), detail),
     }
 }
 
@@ -1628,6 +1798,20 @@ fn run(ctx: &mut Ctx) {
         }
         let (r0, c0) = (*env.runs.borrow(), *env.compared.borrow());
         ctx.case(|| multi_stmt_describe(c), || multi_stmt_outcome(&env, c));
+        let (r1, c1) = (*env.runs.borrow(), *env.compared.borrow());
+        ctx.count("states", r1 - r0);
+        ctx.count("transitions", c1 - c0);
+    }
+    // ---- date family ----
+    let dates = date_cases();
+    ctx.fact("date_cases", dates.len() as u64);
+    for c in &dates {
+        if !ctx.next_is_mine() {
+            ctx.skip_cases(1);
+            continue;
+        }
+        let (r0, c0) = (*env.runs.borrow(), *env.compared.borrow());
+        ctx.case(|| date_describe(c), || date_outcome(&env, c));
         let (r1, c1) = (*env.runs.borrow(), *env.compared.borrow());
         ctx.count("states", r1 - r0);
         ctx.count("transitions", c1 - c0);
